@@ -177,7 +177,7 @@ theorem C05_pane_general (hS : ScalarRT E) (hD : DynId dyn N) {info : PaneInfo} 
   intro p hp
   obtain ⟨hz, hex⟩ := List.mem_filter.1 hp
   have hf := (List.of_mem_zip hz).1
-  simp only [paneOne, h5 p.1 hf (by simpa using hex)]
+  simp only [paneOne, paneAttr, h5 p.1 hf (by simpa using hex)]
 
 /-! ## Negation witnesses: the full statement fails outside the fragment / without `RTOk` -/
 
